@@ -983,14 +983,22 @@ fn do_scheduled_action<M: AsRef<[Machine]>>(
             };
             if is_client {
                 if replace || block > client.blocking_until.unwrap_or(a.time) {
+                    // ongoing blocking stays non-bypassable if any action that
+                    // set or updated it did not allow bypass
+                    client.blocking_bypassable = match client.blocking_until {
+                        Some(_) => client.blocking_bypassable && bypass,
+                        None => bypass,
+                    };
                     client.blocking_until = Some(block);
-                    client.blocking_bypassable = bypass;
                 }
                 event_bypass = client.blocking_bypassable;
             } else {
                 if replace || block > server.blocking_until.unwrap_or(a.time) {
+                    server.blocking_bypassable = match server.blocking_until {
+                        Some(_) => server.blocking_bypassable && bypass,
+                        None => bypass,
+                    };
                     server.blocking_until = Some(block);
-                    server.blocking_bypassable = bypass;
                 }
                 event_bypass = server.blocking_bypassable;
             }
